@@ -13,6 +13,13 @@ K (this file) asks the REAL pint about every row:
     for the unit itself and, for exact rows, its inverse and its square (so every base unit that a
     system replaces occurs with both signs of exponent);
   * float registry: the same numbers within 4 ulp;
+  * symbol <-> unit: every standard symbol of the table and every prefix symbol in front of it (ms, mS,
+    mA, ma, kA, mK … about 5 400 strings; own spellings of other units and doubly readable strings left
+    out) must denote that prefix and that unit with name, dimension, factor and composed symbol — on a
+    FRESH registry and on registries that were first queried case-insensitively (per-call
+    case_sensitive=False on all case variants), in the float registry, and (thorough) after
+    get_name(..., case_sensitive=False), after long-name / plural lookups and in random order; a
+    failure is reported with a shortest earlier query that reproduces it on a fresh registry;
   * thorough: every spelling (symbol, aliases, plural) of every row, every alias of every prefix;
   * the model on the same names (RegistryRun cases: root units, dimensionality, symbol), so the
     Coq theorem and the real registry are tied on exactly the rows the theorem speaks about.
@@ -31,7 +38,7 @@ from .common import coq_list, coq_str
 ULPS = 4
 ULPS_BASE = 4      # get_base_units / to_base_units of the float registry (root factor, then one more conversion)
 HEADER = ("From PintV Require Import Model.UC Model.Eval Model.Registry Model.RegistryRun Model.Standards "
-          "Model.Groups Model.Systems Model.StandardsBase Gen.DefaultDefs Gen.DefaultReg Gen.Standards.\n"
+          "Model.Groups Model.Systems Model.StandardsBase Model.StandardsSymbols Gen.DefaultDefs Gen.DefaultReg Gen.Standards.\n"
           "Open Scope string_scope.\n"
           "Definition dflt_system : option system := match Eval.assoc \"system\" default_defaults with "
           "Some n => system_of default_reg default_systems n | None => None end.\n")
@@ -366,6 +373,232 @@ def check_prefixes(ck, prefixes, ureg, uf, thorough, report):
     ck.count("prefix spellings x carriers", n)
 
 
+# ---------------------------------------------------------------------------------------------
+# symbol <-> unit association: bare standard symbols and every prefix symbol in front of them,
+# on a fresh registry and on registries that were queried in other ways before
+def readings(fresh, s):
+    """the distinct (prefix name, unit name) readings of a string, from the registry's key tables alone
+    (prefix spelling + unit spelling [+ plural s]); mirrors what the grammar of names allows, not the code"""
+    out = set()
+    for pk, pd in fresh._prefixes.items():
+        if not s.startswith(pk):
+            continue
+        for suffix in ("", "s"):
+            if not s.endswith(suffix):
+                continue
+            name = s[len(pk):len(s) - len(suffix)] if suffix else s[len(pk):]
+            if suffix and len(name) == 1:
+                continue
+            d = fresh._units.get(name)
+            if d is not None:
+                out.add((pd.name, d.name))
+    return out
+
+
+def symbol_entries(rows, prefixes, fresh, counts):
+    """[(spelling, expected canonical name, row, prefix or None)] for every standard symbol of the table the
+    registry carries and every prefix symbol in front of it; own spellings of other units (cd, Pa, min, ft)
+    and strings with two readings are the ambiguity of the symbols themselves (C08) and are left out"""
+    by_sym = {}
+    for r in rows:
+        for us in r["syms"]:
+            by_sym.setdefault(us, set()).add(r["name"])
+    base_keys = set(fresh._units)
+    out = []
+    for r in rows:
+        d = fresh._units.get(r["name"])
+        if d is None or d.name != r["name"] or not d.is_multiplicative or not r["syms"]:
+            continue
+        for us in r["syms"]:
+            if len(by_sym[us]) > 1:
+                counts["symbol shared by two rows of the table (not read backwards)"] += 1
+                continue
+            if us not in base_keys:
+                counts["alternative symbol the registry does not carry"] += 1
+                continue
+            out.append((us, r["name"], r, None, None, us))
+            for p in prefixes:
+                for ps in p["syms"]:
+                    s = ps + us
+                    if s in base_keys:
+                        counts["prefix+symbol string that is a unit's own spelling (left out)"] += 1
+                        continue
+                    if len(readings(fresh, s)) != 1:
+                        counts["prefix+symbol string with two readings (left out)"] += 1
+                        continue
+                    out.append((s, p["name"] + r["name"], r, p, ps, us))
+    return out
+
+
+def case_variants(s):
+    v = [s, s.lower(), s.upper(), s[:-1] + s[-1].swapcase(), s[0].swapcase() + s[1:], s.swapcase()]
+    return list(dict.fromkeys(v))
+
+
+def warm(ureg, spellings, how):
+    """earlier read-only queries on the same registry"""
+    import logging
+    logging.disable(logging.CRITICAL)          # case-insensitive lookups warn about their ambiguity
+    try:
+        for s in spellings:
+            for v in (case_variants(s) if how == "case-insensitive" else [s]):
+                try:
+                    if how == "case-insensitive":
+                        ureg.parse_units(v, case_sensitive=False)
+                    elif how == "get_name case-insensitive":
+                        ureg.get_name(v, case_sensitive=False)
+                    else:
+                        ureg.parse_units(v)
+                except Exception:
+                    pass
+    finally:
+        logging.disable(logging.NOTSET)
+
+
+def check_symbol(ureg, entry, exact=True):
+    """[(aspect, call, expected, observed)] for one spelling on one registry"""
+    s, want, row, p, ps, us = entry
+    pv = p["value"] if p else F(1)
+    out = []
+    try:
+        got = ureg.get_name(s)
+    except Exception as e:
+        return [("name", f"get_name({s!r})", repr(want), f"{type(e).__name__}: {e}")]
+    if got != want:
+        try:
+            what = f" (1 {s} = {ureg.Quantity(1, ureg.Unit(ureg.UnitsContainer({got: 1}))).to_base_units()})"
+        except Exception:
+            what = ""
+        return [("name", f"get_name({s!r})", repr(want), repr(got) + what)]
+    # the spelling itself where it is a name the expression parser can read; %, ‰ … through their unit
+    unit = ureg.parse_units(s) if s.isidentifier() else ureg.Unit(ureg.UnitsContainer({got: 1}))
+    q = ureg.Quantity(F(1) if exact else 1.0, unit)
+    dim = {k: F(v) for k, v in q.dimensionality.items()}
+    if dim != row["dims"]:
+        out.append(("dims", f"Quantity(1, {s!r}).dimensionality", {k: str(v) for k, v in sorted(row["dims"].items())},
+                    {k: str(v) for k, v in sorted(dim.items())}))
+    x = q.to_root_units().magnitude
+    ev, tol = pv * row["root"], abs(pv) * row["root_tol"]
+    if exact:
+        ok = (is_exact(x) and abs(F(x) - ev) <= tol) if row["kind"] != "KFloat" else abs(F(x) - ev) <= max(tol, abs(ev) / 10 ** 12)
+    else:
+        ok = ulps(float(x), float(ev)) <= ULPS or abs(float(x) - float(ev)) <= float(tol)
+    if not ok:
+        out.append(("factor", f"Quantity(1, {s!r}).to_root_units().magnitude", fr(ev) if exact else repr(float(ev)), fr(x)))
+    if exact:
+        sym = ureg.get_symbol(s)
+        wants = [a + b for a in (p["syms"] if p else [""]) for b in row["syms"]]
+        if sym not in wants:
+            out.append(("symbol", f"get_symbol({s!r})", " or ".join(map(repr, wants)), repr(sym)))
+    return out
+
+
+def minimal_history(entry, how, full):
+    """a shortest earlier query that makes the spelling fail on an otherwise fresh registry"""
+    s = entry[0]
+    for v in case_variants(s):
+        u = regk.registry(F)
+        warm(u, [v] if how != "case-insensitive" else [], how)
+        if how == "case-insensitive":
+            import logging
+            logging.disable(logging.CRITICAL)
+            try:
+                u.parse_units(v, case_sensitive=False)
+            except Exception:
+                pass
+            finally:
+                logging.disable(logging.NOTSET)
+        if check_symbol(u, entry):
+            call = (f"parse_units({v!r}, case_sensitive=False)" if how == "case-insensitive" else
+                    f"get_name({v!r}, case_sensitive=False)" if how == "get_name case-insensitive" else f"parse_units({v!r})")
+            return [call]
+    return full
+
+
+def check_symbols(ck, rows, prefixes, thorough, report, rng):
+    import collections
+    counts = collections.Counter()
+    fresh = regk.registry(F)
+    entries = symbol_entries(rows, prefixes, fresh, counts)
+    # the everyday prefixes first, so that the violations reported one by one are the familiar symbols (ms, mA, kA)
+    common = ["milli", "kilo", "micro", "mega", "nano", "centi", "giga", "pico", "deci", "hecto", "kibi"]
+    entries.sort(key=lambda e: (0 if e[3] is None else 1 + common.index(e[3]["name"]) if e[3]["name"] in common else 99))
+    spellings = [e[0] for e in entries]
+    longnames = [e[1] for e in entries]
+    phases = [("fresh registry", None, F, None),
+              ("registry first queried case-insensitively (parse_units(x, case_sensitive=False) for x in the case variants of every spelling)",
+               "case-insensitive", F, spellings),
+              ("float registry first queried case-insensitively", "case-insensitive", float, spellings)]
+    if thorough:
+        rev = list(reversed(spellings))
+        shuf = spellings[:]
+        rng.shuffle(shuf)
+        phases += [("registry first queried by get_name(x, case_sensitive=False), reversed order", "get_name case-insensitive", F, rev),
+                   ("registry first queried with the long names and plurals (millisecond, milliseconds)", "other spellings", F,
+                    longnames + [n + "s" for n in longnames]),
+                   ("registry first queried case-insensitively in random order", "case-insensitive", F, shuf)]
+    nmin = 0
+    for label, how, nit, hist in phases:
+        u = regk.registry(nit)
+        if hist is not None:
+            warm(u, hist, how)
+        nbad = 0
+        for e in entries:
+            res = check_symbol(u, e, exact=nit is F)
+            ck.case(key=("symbol", e[0], label), nontrivial=True)
+            for aspect, call, expected, observed in res:
+                key = f"symbol:{e[0]}:{aspect}"
+                history = []
+                if hist is not None:
+                    nbad += 1
+                    if nmin < 2 * MAX_PER_ASPECT and nit is F:
+                        nmin += 1
+                        history = minimal_history(e, how, [f"<{len(hist)} earlier queries: {label}>"])
+                    else:
+                        history = [f"<{len(hist)} earlier queries: {label}>"]
+                reg = FRAC if nit is F else FLT
+                desc = (f"on a {label}: " + (f"after {'; '.join(history)}: " if history else "") +
+                        f"{reg}.{call}: expected {expected}, observed {observed}")
+                report(key, desc, {"symbol": e[0], "expected_name": e[1], "row": e[2]["name"], "prefix": e[3]["name"] if e[3] else None,
+                                   "registry": reg, "history": history, "history_kind": how, "call": call,
+                                   "expected": str(expected), "observed": str(observed), "standard": e[2]["source"],
+                                   "table_line": e[2]["line"]})
+        ck.count(f"symbols checked on a {label.split(' (')[0]}", len(entries))
+    for k, v in counts.items():
+        ck.count(k, v)
+    return entries
+
+
+MODEL_TARGETS = ["Model/Standards.vo", "Model/StandardsBase.vo", "Model/StandardsSymbols.vo", "Gen/Standards.vo",
+                 "Gen/DefaultReg.vo", "Model/RegistryRun.vo"]
+
+
+class build_lock:
+    """the lock ck.coq_build serialises builds with (build/.lock)"""
+
+    def __enter__(self):
+        import fcntl
+        from .common import BUILD
+        self.f = open(BUILD / ".lock", "w")
+        fcntl.flock(self.f, fcntl.LOCK_EX)
+        return self
+
+    def __exit__(self, *a):
+        import fcntl
+        fcntl.flock(self.f, fcntl.LOCK_UN)
+        self.f.close()
+
+
+def gen_is_mine():
+    """coq/Gen/DefaultDefs.v is what T1 makes of THIS check's checkout"""
+    from . import t1_defs
+    from .common import COQ
+    try:
+        return t1_defs.generate()["Gen/DefaultDefs.v"] == (COQ / "Gen" / "DefaultDefs.v").read_text()
+    except Exception:
+        return False
+
+
 def model_failing_rows(ck):
     """names of the rows the MODEL registry (regenerated from /repo) fails, listed ones included"""
     rc, out = ck.coq_eval("c20_rows", HEADER +
@@ -405,8 +638,7 @@ def run(ck):
         ck.broken.append(f"standards table unreadable: {e}")
         return
     built = ck.coq_build(["Properties/C20.vo", "Model/RegistryRun.vo"])
-    model_ok = built or ck.coq_build(["Model/Standards.vo", "Model/StandardsBase.vo", "Gen/Standards.vo", "Gen/DefaultReg.vo",
-                                      "Model/RegistryRun.vo"])
+    model_ok = built or ck.coq_build(MODEL_TARGETS)
 
     import pint  # noqa: F401
     ureg, uf = regk.registry(F), regk.registry(float)
@@ -447,6 +679,9 @@ def run(ck):
             report(f"row:{row['name']}:{aspect}", desc, rp)
     ck.count("alias / plural spellings", nsp)
     check_prefixes(ck, prefixes, ureg, uf, thorough, report)
+    import random
+    sym_entries = check_symbols(ck, rows, prefixes, thorough, report, random.Random(ck.seed))
+    ck.extra["symbol_spellings"] = len(sym_entries)
 
     # ---- the model on the same names (tie of the Coq theorem to the real registry)
     cases, descs = [], []
@@ -463,19 +698,53 @@ def run(ck):
                         (regk.case_dim(ureg, {n: F(1)}), {"dim_of": n}),
                         (regk.case_symbol(ureg, n), {"get_symbol": n})):
             cases.append(term); descs.append(d)
-    bad = None
+    # coq/Gen and the .vo files are shared by all checks: a concurrent check pointed at ANOTHER checkout
+    # (PINT_REPO) may regenerate and rebuild them between this check's build and the evaluations below, which
+    # would then read the other tree's registry.  The evaluations therefore run under the build lock, after
+    # making sure (regenerate + make if not) that Gen/DefaultDefs.v is this tree's.
+    bad = mrows = mpfx = mbase = None
+    out = ""
     if model_ok:
-        bad = ck.coq_mismatches("c20", regk.HEADER, cases, "ok")
-        ck.evaluations += len(cases)
+        with build_lock():
+            if not gen_is_mine():
+                ck.extra["rebuilds_after_concurrent_regeneration"] = ck.extra.get("rebuilds_after_concurrent_regeneration", 0) + 1
+                ck.generators()
+                from .common import COQ, NCPU, sh
+                sh(f"timeout 1500 make -j{NCPU} " + " ".join(MODEL_TARGETS), cwd=COQ, timeout=1560)
+            saved = ck.__dict__.get("coq_eval")
+            if hasattr(ck, "_coq_eval_once"):
+                ck.coq_eval = ck._coq_eval_once        # no nested rebuild (it would wait for this very lock)
+            try:
+                bad = ck.coq_mismatches("c20", regk.HEADER, cases, "ok")
+                mrows, mpfx, mbase, out = model_failing_rows(ck)
+            finally:
+                if saved is None:
+                    ck.__dict__.pop("coq_eval", None)
+                else:
+                    ck.coq_eval = saved
+    ck.evaluations += len(cases)
     ck.extra["model_vs_impl_cases"] = len(cases)
     ck.extra["model_vs_impl_disagreements"] = None if bad is None else len(bad)
 
     # ---- model-side search: which rows does the regenerated model registry fail?
-    mrows = mpfx = mbase = None
     if model_ok:
-        mrows, mpfx, mbase, out = model_failing_rows(ck)
         if mrows is None:
             ck.broken.append("model evaluation of failing_rows failed: " + out[-400:])
+    # the symbol theorem is the slow one (5 400 strings): its model-side search runs only when the build broke
+    msym = None
+    if model_ok and not built and not reported:     # needed only when no oracle has named a failing input yet
+        rc_, out = ck.coq_eval("c20_syms", HEADER +
+                               'Goal True. let r := eval vm_compute in (bad_symbols true default_reg std_prefixes standards) in '
+                               'idtac "@@SYMS" r. exact I. Qed.\n', timeout=600)
+        if rc_ == 0 and "@@SYMS" in out:
+            msym = re.findall(r'"([^"]+)"', out.split("@@SYMS", 1)[1])
+            missing = [x for x in msym if not any(k.startswith(f"symbol:{x}:") or k.startswith(f"row:{x}:") for k in reported)]
+            if missing:
+                ck.broken.append(f"{len(missing)} symbol string(s) are misread in the model registry but fine on the real "
+                                 f"registry: " + ", ".join(missing[:12]))
+        else:
+            ck.broken.append("model evaluation of bad_symbols failed: " + out[-300:])
+    ck.extra["symbols_misread_in_model"] = msym
     ck.extra["table_rows"] = len(rows)
     ck.extra["table_prefixes"] = len(prefixes)
     ck.extra["rows_failing_in_model"] = mrows
@@ -508,7 +777,7 @@ def run(ck):
         if m and built_on.get(m.group(1)):
             rp = dict(rp, built_on_failing_rows=built_on[m.group(1)])
             desc += f" [defined in terms of the failing row(s) {', '.join(built_on[m.group(1)])}]"
-        aspect = key.rsplit(":", 1)[1]
+        aspect = key.split(":", 1)[0] + ":" + key.rsplit(":", 1)[1]
         if ck._match_known(key) is None and shown.get(aspect, 0) >= MAX_PER_ASPECT:
             more.setdefault(aspect, []).append((key, desc))      # same aspect, many rows: one summary below
             continue
@@ -516,7 +785,7 @@ def run(ck):
             shown[aspect] = shown.get(aspect, 0) + 1
         ck.violation(key, desc, rp)
     for aspect, items in more.items():
-        ck.violation(f"rows:{aspect}:+{len(items)}",
+        ck.violation(f"more:{aspect}:+{len(items)}",
                      f"{len(items)} further table entries fail in the same way ({aspect}), first: {items[0][1]}",
                      {"aspect": aspect, "keys": [k for k, _ in items], "what": [d for _, d in items][:40]})
     if mrows is not None:
@@ -559,7 +828,7 @@ def replay(ck, path):
     print(json.dumps(rec, indent=1, ensure_ascii=False))
     rows, prefixes = t_standards.load()
     ureg, uf = regk.registry(F), regk.registry(float)
-    if "row" in rp:
+    if "row" in rp and "symbol" not in rp:
         row = next((r for r in rows if r["name"] == rp["row"]), None)
         if row is None:
             print(f"row {rp['row']} is no longer in the table")
@@ -569,6 +838,32 @@ def replay(ck, path):
             print(f"STILL FAILING row:{row['name']}:{aspect}: {desc}")
         if not res:
             print(f"row {row['name']} now holds on the current tree")
+        return 1 if res else 0
+    if "symbol" in rp:
+        counts = __import__("collections").Counter()
+        entries = [e for e in symbol_entries(rows, prefixes, regk.registry(F), counts) if e[0] == rp["symbol"]]
+        if not entries:
+            print(f"{rp['symbol']} is no longer a symbol of the table")
+            return 0
+        u = regk.registry(F if rp.get("registry") == FRAC else float)
+        for h in rp.get("history", []):
+            m = re.fullmatch(r"(parse_units|get_name)\('(.*)'(, case_sensitive=False)?\)", h)
+            if m:
+                import logging
+                logging.disable(logging.CRITICAL)
+                try:
+                    getattr(u, m.group(1))(m.group(2), **({"case_sensitive": False} if m.group(3) else {}))
+                except Exception:
+                    pass
+                finally:
+                    logging.disable(logging.NOTSET)
+            else:
+                warm(u, [e[0] for e in symbol_entries(rows, prefixes, regk.registry(F), counts)], rp.get("history_kind"))
+        res = check_symbol(u, entries[0], exact=rp.get("registry") == FRAC)
+        for aspect, call, expected, observed in res:
+            print(f"STILL FAILING symbol:{rp['symbol']}:{aspect}: after {rp.get('history')}: {call}: expected {expected}, observed {observed}")
+        if not res:
+            print(f"symbol {rp['symbol']} now holds after the recorded history")
         return 1 if res else 0
     if "prefix" in rp:
         got = {}
